@@ -204,4 +204,25 @@ example : midnightLine [86399000, 86399500, 86400000, 86400500] = some 1 := by d
 example : midnightLine [0, 86400000, 172800000] = none := by decide
 example : missLines [2, 3, 6] = [1, 4, 5] := by decide
 
+/-- "as many records as the last line number" does NOT mean that no line is missing: a repeated record or a late record
+makes up for a lost line in the count (the shortcut a seeded change of round 14 took) - machine-checked witnesses -/
+theorem count_equals_last_is_not_complete :
+    ([1, 2, 3, 4, 5, 6, 8, 8] : List Int).length = 8 ∧ missLines [1, 2, 3, 4, 5, 6, 8, 8] = [7] ∧
+    ([1, 2, 4, 5, 6, 7, 9, 8] : List Int).length = 8 ∧ missLines [1, 2, 4, 5, 6, 7, 9, 8] = [3] := by decide
+
+/-- ... while nothing is missing exactly when every number from 1 to the last one occurs -/
+theorem miss_empty_iff (nums : List Int) :
+    missLines nums = [] ↔ ∀ m : Int, 1 ≤ m → m ≤ nums.getLastD 0 → m ∈ nums := by
+  constructor
+  · intro he m h1 h2
+    rcases Classical.em (m ∈ nums) with hm | hm
+    · exact hm
+    · have := (miss_spec nums m).mpr ⟨h1, h2, hm⟩
+      rw [he] at this; exact absurd this (by simp)
+  · intro hall
+    apply List.eq_nil_iff_forall_not_mem.mpr
+    intro m hm
+    obtain ⟨h1, h2, hn⟩ := (miss_spec nums m).mp hm
+    exact hn (hall m h1 h2)
+
 end PygacModel.C18
